@@ -283,3 +283,17 @@ pub fn sigils_params_twin(a: &str, b: &str, c: u64) -> u64 { m1(); c + m2() }
 #[instrument(fields(?a, id = %b.a))]
 pub async fn sigils_async(a: String, b: Big) -> u64 { m1(); let v = helper().await; m2(); b.a + v }
 pub async fn sigils_async_twin(a: String, b: Big) -> u64 { m1(); let v = helper().await; m2(); b.a + v }
+
+// ---- the order of the attribute's arguments means nothing: `ret` (without a level of its own) written *before* `level`
+// still reports at the span's level; name / target / skip / fields after the event options
+#[instrument(ret, level = "warn")]
+pub fn order_ret_level(a: u64) -> u64 { m1(); a + m2() }
+pub fn order_ret_level_twin(a: u64) -> u64 { m1(); a + m2() }
+
+#[instrument(err, ret(Display), level = "trace", target = "order::t", name = "renamed_late", skip(b), fields(extra = 1))]
+pub fn order_all_late(a: u64, b: Big) -> Result<u64, String> { m1(); let v = fallible()?; m2(); Ok(v + a + b.a) }
+pub fn order_all_late_twin(a: u64, b: Big) -> Result<u64, String> { m1(); let v = fallible()?; m2(); Ok(v + a + b.a) }
+
+#[instrument(ret, level = "debug")]
+pub async fn order_ret_level_async(a: u64) -> u64 { m1(); let v = helper().await; m2(); a + v }
+pub async fn order_ret_level_async_twin(a: u64) -> u64 { m1(); let v = helper().await; m2(); a + v }
